@@ -197,7 +197,12 @@ def tree_words(tokens, env, escape_url):
                 a.pop("title", None)
             for k in ("url", "title", "info", "alt", "rt"):
                 add(a.get(k))
-            add(t.get("label"))
+            if "ref" in t and ch and len(ch) == 1 and ch[0].get("type") == "text" and ch[0].get("raw") == t.get("label"):
+                # a shortcut or collapsed reference ([foo], [foo][]) shows its label as its text: one source occurrence (words are
+                # unique in the input, so a full reference can never have text equal to its label)
+                pass
+            else:
+                add(t.get("label"))
             if "children" in t:
                 walk(t["children"])
     walk(tokens)
